@@ -5,6 +5,7 @@ import traceback
 
 # (label, module, function): modules are imported lazily so that one broken translator cannot stop the others
 ALL = [("G06_datachecker", "tools.tr.tr_datachecker", "write"),
+       ("G06_exit", "tools.tr.tr_exit", "write"),
        ("G02_registry", "tools.tr.tr_wire", "write"),
        ("G02_oldstyle", "tools.tr.tr_oldstyle", "write"),
        ("G01_handlers", "tools.tr.tr_handlers", "write"),
